@@ -179,6 +179,23 @@ theorem stopped_means_drained (cfg : Cfg) (hf : Fixed cfg) (progC progP : List O
     · have := gg.inv.act.mp ha
       rw [hl] at this; cases this
 
+/-
+NOT PROVED (full statement kept here; only sampled by the python oracle's `steady` branch):
+
+  theorem steady_all_written (cfg) (hf : Fixed cfg) (progC progP) (hw : WF cfg progC progP)
+      (hs : ∀ op ∈ progC ++ progP, op ≠ .enable false ∧ op ≠ .threaded false) (sched) :
+      let s := reach cfg progC progP sched
+      s.discarded = [] ∧ s.written = s.popped            -- hence written <+: accepted
+
+i.e. for programs that never disable the target or switch it back to unthreaded, nothing the logging
+thread pops is discarded, so the written messages are exactly a prefix of the accepted ones.  What is proved
+(`exactly_once`, `delivered_prefix_in_order`) is the version with `discarded` explicit:
+popped ~ written ++ discarded and written <+ popped <+: accepted.  Missing: a third invariant
+"queue ≠ [] ∨ a thread is parked at the lock of log_post → target open, enabled, threaded, and
+(logger_inited ∨ controller inside qb_log_fini)", preserved by every step (needs `Inv.guard`, `Inv.null_st`).
+Progress (`no_deadlock`) is in Props/C16Live.lean.
+-/
+
 /-! ## Non-vacuity: the hypotheses are satisfiable and the conclusions are not trivially met -/
 
 /-- documented order: init, open, enable, threaded, start, log, fini -/
